@@ -461,11 +461,11 @@ def run(ctx):
     total = ctx.budget_s
     if total:
         ctx.budget_s = total * 0.5
-    ok = ctx.run_given(cases(), run_case, ctx.n(quick=170, thorough=1500))
+    ok = ctx.run_given(cases(), run_case, ctx.n(quick=220, thorough=1500))
     ctx.budget_s = total
     if ok and ctx.failure is None:
-        run_trace_machine(ctx, LinksMachine, ctx.n(quick=70, thorough=1000),
-                          12 if ctx.tier == "quick" else 16)
+        run_trace_machine(ctx, LinksMachine, ctx.n(quick=120, thorough=1000),
+                          16 if ctx.tier == "quick" else 20)
 
 
 def replay(case, ctx):
